@@ -40,6 +40,11 @@ Theorem C10_lockstep : forall evs s s', explored s = true -> Shell2.run contains
   explored s' = true /\ n_like s' + length (all_pts s) = n_like s + length (all_pts s') /\ t_pts s' = t_pts s.
 Proof. exact (run_lockstep contains in_cube lik blob n_batch). Qed.
 
+(* the same during exploration while no candidates are pending (e.g. the whole phase of the first bound) *)
+Theorem C10_stored_nocand : forall s rounds vals s', t_from s = [] -> step s (EvAddSamples None rounds vals) = Some s' ->
+  length (all_pts s') = length (all_pts s) + n_batch /\ n_like s' = n_like s + n_batch.
+Proof. exact (batch_stored_nocand contains in_cube lik blob n_batch). Qed.
+
 (* one run() call: one batch per loop iteration *)
 Theorem C10_count : forall c first its ft fn s s' ret, run_call c first its ft fn s = Some (s', ret) ->
   n_like s' = n_like s + n_batch * length its.
@@ -80,6 +85,7 @@ Print Assumptions C10_counter.
 Print Assumptions C10_support.
 Print Assumptions C10_stored.
 Print Assumptions C10_lockstep.
+Print Assumptions C10_stored_nocand.
 Print Assumptions C10_count.
 Print Assumptions C10_budget.
 Print Assumptions C10_success.
